@@ -230,6 +230,25 @@ def run(ctx):
         for (full, doc, toks) in ((1, 1, tf), (0, 1, tp), (1, 0, tn)):
             model_cases.append([1, full, doc] + s2n(text))
             keys.append((text, full, doc, toks))
+    # an unterminated url( at the end of a full sheet is completed to one URI token however the keyword is spelled
+    for head in ('url(', 'URL(', 'u\\rl(', '\\75 rl(', '\\75rl(', 'ur\\6c (', '\\000075\\000072\\00006c(', 'U\\52 L(', '\\55\\52\\4c('):
+        for body in ('a', '"a', ' a.png', "'x y", '', '  "', 'a\\)b'):
+            for pre in ('', 'b{c:', '@import '):
+                text = pre + head + body
+                ctx.case(text)
+                try:
+                    tf = impl_tokens(text, True, True)
+                    closed = impl_tokens(text + ('"' if body.strip().startswith('"') else "'" if body.strip().startswith("'") else '') + ')', False, True)
+                except Exception as e:
+                    ctx.violation('total', {'text': text}, 'tokenize raised %s: %s' % (type(e).__name__, e), KNOWN_PRED)
+                    continue
+                last = tf[-2] if len(tf) >= 2 else None
+                if closed and closed[-1][0] == 'URI' and (last is None or last[0] != 'URI'):
+                    ctx.violation('completion', {'text': text, 'family': 'open-url'}, 'closed by hand it is the URI %r; at the end of a full sheet the tokens are %r' % (
+                        closed[-1][1], [t[:2] for t in tf[-4:]]), KNOWN_PRED)
+                for (full, doc, toks) in ((1, 1, tf),):
+                    model_cases.append([1, full, doc] + s2n(text))
+                    keys.append((text, full, doc, toks))
     ctx.sample({'text': cases[len(cases) // 2][1], 'tokens': [list(t) for t in impl_tokens(cases[len(cases) // 2][1], True, True)][:8]})
     ctx.sample({'text': cases[3][1]})
     ctx.extra['input_distribution'] = kinds
